@@ -227,6 +227,26 @@ func (s *SelectStmt) ValidateFields(ctx *CheckCtx) error {
 	if err := s.checkAliasCycles(ctx); err != nil {
 		return err
 	}
+	// Resolve the field names in every field before any field is typed: the
+	// type of a field that uses a field listed after it is not known before
+	// the names in that later field are resolved (a + 'x' is a number as long
+	// as a is just a name)
+	for _, f := range s.Fields {
+		f.Walk(func(e Expression) bool {
+			switch expr := e.(type) {
+			case *BinaryOpExpr:
+				expr.tryRewriteExpr(ctx)
+			case *FunctionCallExpr:
+				for i := range expr.Args {
+					expr.tryRewriteExpr(i, ctx)
+				}
+			case *FieldReferenceExpr:
+				// (the field it names is resolved on its own)
+				return false
+			}
+			return true
+		})
+	}
 	for _, f := range s.Fields {
 		if err := s.validateField(f, ctx); err != nil {
 			return err
